@@ -5,6 +5,7 @@ CONSTANTS
   Segs <- SegsQuick
   Depth = 3
   Mode = "fixed"
+  StopAtOOR = TRUE
   CowAlphabet = {0, 1, 200}
   CowMaxLen = 2
 INVARIANTS ApplyMeetsPost NoEmptyChunk LenIsSum PanicOnlyOutOfRange Emit
